@@ -108,6 +108,16 @@ def rule_grammar_literals(ctx: Ctx, rid="C05.GRAMMAR-LITERAL"):
 
 
 def check(rep):
+    from pyab_static.absint import ContentDependent
+    from pyab_static.core import FloorError
+    try:
+        return _check(rep)
+    except ContentDependent as e:
+        rep.bad("C05.LITERAL-NOT-CUT", "language/grammar.py|codegen: literal text cut into pieces", f"{e}: the literal does not reach run time as the one value that was written", text=str(e)[:160])
+        raise FloorError(f"stopped at a content-dependent operation on a literal: {e}")
+
+
+def _check(rep):
     ctx = Ctx(rep)
     ctx.shape_options.add("overflow")      # decimals too large for a float (the lexer's float() gives inf)
     if rep.tier == "thorough":
@@ -119,6 +129,20 @@ def check(rep):
     LR.rule_string_alphabet(ctx)
     rule_grammar_literals(ctx)
     PR.rule_compiles(ctx, rid="C05.SHAPE-COMPILES", strict=False)
+    from . import evalrules as ER_
+    # the literal that reaches run time is the literal written: the text is lexed as it was given
+    ER_.rule_text_unmodified(ctx, rid="C05.TEXT-UNMODIFIED")
+    # two literals of different types that compare equal (1 and 1.0, 0 and False) are two values: a step that treats them as one
+    # (a dict or set keyed by the literals, a duplicate check) and then refuses or merges them loses one of them
+    n_eq = 0
+    for o in ctx.outcomes():
+        if o.status == "raises" and any("equal literals" in a_ and a_.endswith("=True") for a_ in o.assumptions):
+            n_eq += 1
+            if n_eq <= 3:
+                rep.bad("C05.EQUAL-LITERALS-DISTINCT", f"language/grammar.py|models <- {o.prog.label}",
+                        f"compiling raises when two literals compare equal ({[a_ for a_ in o.assumptions if 'equal literals' in a_][0][:120]}): "
+                        f"{o.error[:160]} - literals of different types that are == (1, 1.0) are distinct values of the language",
+                        text=f"{o.error.split(' at ')[0]}|equal literals")
     from . import evalrules as ER
     ER.rule_value_keyed_caches(ctx, rid="C05.NO-VALUE-KEYED-CACHE",
                                modules={"codegen/python/python_generator.py", "language/grammar.py", "language/lexer.py",
